@@ -7,15 +7,22 @@ static void mon_read_result(struct DataAccess *obj, _Bool ok) { (void)obj; (void
 enum { Z_OK = 0, Z_STREAM_END = 1, Z_NEED_DICT = 2, Z_ERRNO = -1, Z_STREAM_ERROR = -2, Z_DATA_ERROR = -3, Z_MEM_ERROR = -4, Z_BUF_ERROR = -5, Z_VERSION_ERROR = -6 };
 struct gzFILE { int id; };
 struct z_stream_model { unsigned int avail_in; const unsigned char *next_in; unsigned int avail_out; unsigned char *next_out; };
-static struct { unsigned long inflated, written, pending; _Bool stream_end_seen, last_was_stream_end, must_raise, init_called, gzip_only; size_t last_got; const unsigned char *outbuf; } GZ;
+static struct { unsigned long inflated, written, pending; _Bool stream_end_seen, last_was_stream_end, must_raise, init_called, gzip_only; size_t last_got; const unsigned char *outbuf;
+                /* termination ghosts: bytes of the (finite) compressed file not yet read; bytes the (finite) decompressed stream still
+                   has to deliver; whether inflate was called once more after it had reported the end of the stream */
+                unsigned long file_left, out_left; _Bool called_after_end; } GZ;
+static unsigned long h_outer0;      /* the outer loop's measure at the start of the current round (set by an extraction rule) */
+#define GZ_PHASE_ (!GZ.stream_end_seen ? 2ul : !GZ.called_after_end ? 1ul : 0ul)
+#define GZ_M_OUT_ (3ul * (GZ.file_left + GZ.out_left) + GZ_PHASE_)
+#define GZ_OUTER_GHOST h_outer0 = GZ_M_OUT_;
 static size_t gz_fread(void *p, size_t sz, size_t n, struct gzFILE *f)
 {
   size_t got = nondet_size_t();
   (void)p; (void)f;
   __CPROVER_assert(sz == 1 && n == 512, "model: fread(input_buffer, 1, 512, f)");
-  __CPROVER_assume(got <= n);
+  __CPROVER_assume(got <= n && got <= GZ.file_left);          /* the file is finite */
   __CPROVER_assert(!GZ.must_raise, "C10: after an error from inflate no further input is read (the error is raised)");
-  GZ.last_got = got;
+  GZ.last_got = got; GZ.file_left -= got;
   return got;
 }
 static int gz_ferror(struct gzFILE *f) { (void)f; return nondet_bool(); }
@@ -32,7 +39,13 @@ static int gz_inflate(struct z_stream_model *s)
   __CPROVER_assume(consumed <= s->avail_in && produced <= s->avail_out);
   __CPROVER_assume(rc == Z_OK || rc == Z_STREAM_END || rc == Z_NEED_DICT || rc == Z_DATA_ERROR || rc == Z_STREAM_ERROR || rc == Z_MEM_ERROR || rc == Z_BUF_ERROR);
   __CPROVER_assume(rc != Z_BUF_ERROR || (consumed == 0 && produced == 0));
-  __CPROVER_assume(!GZ.stream_end_seen);
+  /* zlib.h: "Z_OK if some progress has been made (more input processed or more output produced)" */
+  __CPROVER_assume(rc != Z_OK || consumed + produced > 0);
+  __CPROVER_assume(produced <= GZ.out_left);                    /* the decompressed stream is finite */
+  if (GZ.stream_end_seen)
+    { /* inflate.c, state DONE: a call after the end of the stream reports Z_STREAM_END again and does nothing */
+      rc = Z_STREAM_END; consumed = 0; produced = 0; GZ.called_after_end = 1; }
+  GZ.out_left -= produced;
   s->avail_in -= consumed; s->avail_out -= produced;
   GZ.outbuf = s->next_out;
   GZ.pending = produced; GZ.inflated += produced;
@@ -54,13 +67,18 @@ static size_t gz_fwrite(const void *p, size_t sz, size_t n, struct gzFILE *fout)
   return w;
 }
 #define GZ_OUTER_CONTRACT \
-  __CPROVER_assigns(zerr, stream, GZ, g_exc, g_exc_by_pointer, __CPROVER_object_whole(input_buffer), __CPROVER_object_whole(output_buffer)) \
+  __CPROVER_assigns(zerr, stream, GZ, h_outer0, g_exc, g_exc_by_pointer, __CPROVER_object_whole(input_buffer), __CPROVER_object_whole(output_buffer)) \
   __CPROVER_loop_invariant(g_exc == EXC_NONE && !g_exc_by_pointer && GZ.pending == 0 && GZ.written == GZ.inflated && !GZ.must_raise) \
-  __CPROVER_loop_invariant((zerr == Z_STREAM_END) == GZ.stream_end_seen)
+  __CPROVER_loop_invariant((zerr == Z_STREAM_END) == GZ.stream_end_seen && GZ.file_left <= (1ul << 40) && GZ.out_left <= (1ul << 40)) \
+  /* C07 termination: every round reads input or makes inflate deliver output (or ends the stream) */ \
+  __CPROVER_decreases(GZ_M_OUT_)
 #define GZ_INNER_CONTRACT \
   __CPROVER_assigns(zerr, stream.avail_in, stream.avail_out, stream.next_out, GZ, g_exc, g_exc_by_pointer, __CPROVER_object_whole(output_buffer)) \
   __CPROVER_loop_invariant(g_exc == EXC_NONE && !g_exc_by_pointer && GZ.pending == 0 && GZ.written == GZ.inflated && !GZ.must_raise) \
-  __CPROVER_loop_invariant((zerr == Z_STREAM_END) == GZ.stream_end_seen && stream.avail_in <= 512 && GZ.last_got == got)
+  __CPROVER_loop_invariant((zerr == Z_STREAM_END) == GZ.stream_end_seen && stream.avail_in <= 512 && GZ.last_got == got && stream.avail_in <= got) \
+  __CPROVER_loop_invariant(GZ.file_left <= (1ul << 40) && GZ.out_left <= (1ul << 40) && GZ_M_OUT_ <= h_outer0 && (got > 0 ==> GZ_M_OUT_ < h_outer0)) \
+  /* C07 termination: every call of inflate consumes input, delivers output, ends the stream -- or is the one call after its end */ \
+  __CPROVER_decreases(3ul * (stream.avail_in + GZ.out_left) + GZ_PHASE_)
 /* zlib.h, inflateInit2: windowBits 8..15 = zlib format; "add 16 to decode only the gzip format"; "add 32 to enable zlib and
    gzip decoding with automatic header detection"; negative = raw deflate.  MAX_WBITS is 15 (zconf.h). */
 #define MAX_WBITS 15
@@ -83,8 +101,9 @@ __CPROVER_ensures((zerr == Z_OK) == (g_exc == EXC_NONE))
 __CPROVER_ensures(!g_exc_by_pointer);
 
 static void gz_inflate_loop(struct gzFILE *f, struct gzFILE *fout)
-__CPROVER_requires(g_exc == EXC_NONE && !g_exc_by_pointer && GZ.inflated == 0 && GZ.written == 0 && GZ.pending == 0 && !GZ.stream_end_seen && !GZ.must_raise)
-__CPROVER_assigns(GZ, g_exc, g_exc_by_pointer)
+__CPROVER_requires(g_exc == EXC_NONE && !g_exc_by_pointer && GZ.inflated == 0 && GZ.written == 0 && GZ.pending == 0 && !GZ.stream_end_seen && !GZ.must_raise && !GZ.called_after_end &&
+                   GZ.file_left <= (1ul << 40) && GZ.out_left <= (1ul << 40))
+__CPROVER_assigns(GZ, h_outer0, g_exc, g_exc_by_pointer)
 /* normal return: the stream ended (Z_STREAM_END) and every inflated byte was written exactly once */
 __CPROVER_ensures(g_exc == EXC_NONE ==> (GZ.stream_end_seen && !GZ.must_raise && GZ.written == GZ.inflated && GZ.pending == 0))
 __CPROVER_ensures(!g_exc_by_pointer);
@@ -102,7 +121,7 @@ void h_check_zlib(void) { g_exc = EXC_NONE; g_exc_by_pointer = 0; check_zlib_err
 void h_gz_loop(void)
 {
   static struct gzFILE a, b;
-  g_exc = EXC_NONE; g_exc_by_pointer = 0; GZ.inflated = 0; GZ.written = 0; GZ.pending = 0; GZ.stream_end_seen = 0; GZ.must_raise = 0;
+  g_exc = EXC_NONE; g_exc_by_pointer = 0; GZ.inflated = 0; GZ.written = 0; GZ.pending = 0; GZ.stream_end_seen = 0; GZ.must_raise = 0; GZ.called_after_end = 0;
   gz_inflate_loop(&a, &b);
   VERIF_COVER(g_exc == EXC_NONE && GZ.inflated > 2048, "more than two buffers inflated");
   VERIF_COVER(g_exc != EXC_NONE, "rejected");
